@@ -55,7 +55,7 @@ C02Step(s, ev) ==
            msg |-> "NOT-AN-EXPRESSION accepted: the token string is not derivable from the XPath 1.0 grammar but evaluation returned a value"]
      ELSE LET want == Convert(Forest, ev.kind, Eval(pr.ast, Ctx(ev)))
               got == IF isErr THEN ErrV ELSE LoadVal(ev.res)
-          IN IF want.t = "unm" THEN [ok |-> TRUE, st |-> s, drop |-> TRUE, msg |-> ""]
+          IN IF want.t \in {"unm", "fns"} THEN [ok |-> TRUE, st |-> s, drop |-> TRUE, msg |-> ""]
              \* a call with the wrong number of arguments may be refused up front or only when it is evaluated (3.2 does not say)
              ELSE IF isErr /\ HasBadCall(pr.ast) THEN [ok |-> TRUE, st |-> s, drop |-> FALSE, cont |-> TRUE, msg |-> ""]
              ELSE [ok |-> want = got /\ OrderOk(ev), st |-> s, drop |-> FALSE, cont |-> TRUE,
